@@ -29,7 +29,8 @@ theorem C13_refused_no_effect (abs : Abs) (st : NBState) (req : SetReq) (f : Fai
   · rfl
   · rename_i tx hs
     rw [hs] at h
-    simp at h
+    simp only at h
+    split at h <;> cases h
 
 /-- The log grows by exactly the transaction `setPre` produced, and only when it produced one. -/
 theorem C13_log_grows_iff_accepted (abs : Abs) (st : NBState) (req : SetReq) :
